@@ -57,6 +57,42 @@ class Scope(BaseScope):
         return self.top.source.filename
 
 
+class LoopResolution(object):
+    """Loop back-edges being resolved right now.
+
+    A name table computed while some back-edge is skipped (UNRESOLVED) is
+    partial: it is valid only until that resolution ends and must not be
+    memoised for later queries.
+    """
+    depth = 0
+    cache = {}  # type: dict[tuple[object, str], t.Any]
+
+
+def loop_aware_cached_property(func):  # type: ignore[no-untyped-def]
+    attr = func.__name__
+
+    def getter(self):  # type: ignore[no-untyped-def]
+        try:
+            return self.__dict__[attr]
+        except KeyError:
+            pass
+
+        if LoopResolution.depth:
+            key = self, attr
+            try:
+                return LoopResolution.cache[key]
+            except KeyError:
+                pass
+            cache = LoopResolution.cache
+            value = cache[key] = func(self)
+            return value
+
+        value = self.__dict__[attr] = func(self)
+        return value
+
+    return property(getter)
+
+
 class Flow(object):
     def __init__(self, hint, scope, parents=None):
         # type: (str, Scope, t.MutableSequence[Flow | LoopFlow] | None) -> None
@@ -78,12 +114,12 @@ class Flow(object):
             self.scope.locals.add(name.name)
             insert_loc(self._names, name)
 
-    @cached_property
+    @loop_aware_cached_property
     def names(self):
         # type: () -> t.Mapping[str, Name | MultiName]
         return MergedDict({n.name: n for n in self._names}, self.parent_names)
 
-    @cached_property
+    @loop_aware_cached_property
     def parent_names(self):
         # type: () -> t.Mapping[str, Name | MultiName ]
         if len(self.parents) == 1:
@@ -145,11 +181,28 @@ class LoopFlow(object):
         except AttributeError:
             pass
 
-        self._resolving = True
+        key = self, 'loop'
         try:
-            result = self._names = self.parent.names
+            return LoopResolution.cache[key]  # type: ignore[no-any-return]
+        except KeyError:
+            pass
+
+        self._resolving = True
+        outer_cache = LoopResolution.cache
+        LoopResolution.cache = {}
+        LoopResolution.depth += 1
+        try:
+            result = self.parent.names
         finally:
             self._resolving = False
+            LoopResolution.depth -= 1
+            LoopResolution.cache = outer_cache
+
+        if LoopResolution.depth:
+            # an enclosing loop is still unresolved: the result is partial too
+            outer_cache[key] = result
+        else:
+            self._names = result
 
         return result
 
